@@ -88,8 +88,22 @@ pub async fn new_ro<TC: Tcfg, S: Database + 'static>(st: StorageManager<S>, key:
 
 /// publish on the real directory and on the model, compare outcome (C01 oracle core)
 pub async fn publish_both<TC: Tcfg, S: Database + 'static>(dir: &Dir<TC, S>, m: &mut Model, batch: &[(Vec<u8>, Vec<u8>)], step: usize) -> R<bool> {
+    publish_both_opt::<TC, S>(dir, m, batch, step, false).await
+}
+
+/// as `publish_both`; with `spawned` the publish call runs inside a spawned tokio task (as a server handling a request would)
+pub async fn publish_both_opt<TC: Tcfg, S: Database + 'static>(dir: &Dir<TC, S>, m: &mut Model, batch: &[(Vec<u8>, Vec<u8>)], step: usize, spawned: bool) -> R<bool> {
     let before = (m.epoch, m.roots[m.epoch as usize]);
-    let real = dir.publish(to_batch(batch)).await;
+    let real = if spawned {
+        let d = dir.clone();
+        let b = to_batch(batch);
+        match tokio::task::spawn(async move { d.publish(b).await }).await {
+            Ok(r) => r,
+            Err(e) => return crate::engine::fail("panic", format!("step {step}: publish task panicked: {e}")),
+        }
+    } else {
+        dir.publish(to_batch(batch)).await
+    };
     let exp = m.publish(batch);
     match (real, exp) {
         (Ok(eh), Ok((e, r))) => {
